@@ -5,6 +5,9 @@ set -e
 V="$(cd "$(dirname "$(readlink -f "$0")")/../.." && pwd)"
 B="$V/.build"
 REPO="${VERIF_REPO:-/repo}"
+# an alternative source tree (mutation testing) gets its own object directory
+SUB=symfp
+if [ "$REPO" != "/repo" ]; then SUB="alt-$(echo "$REPO" | md5sum | cut -c1-10)"; fi
 mkdir -p "$B"
 exec 9>"$B/.lock"
 flock 9
@@ -12,7 +15,7 @@ S="$V/engine/symfp"
 if [ ! -f "$B/libsymfp.so" ] || [ "$S/plugin.cpp" -nt "$B/libsymfp.so" ]; then
   clang++-14 -shared -fPIC -O1 $(llvm-config-14 --cxxflags) "$S/plugin.cpp" -o "$B/libsymfp.so.tmp"
   mv "$B/libsymfp.so.tmp" "$B/libsymfp.so"
-  rm -rf "$B/symfp"     # plugin changed: all objects are stale
+  rm -rf "$B"/symfp "$B"/alt-*     # plugin changed: all objects are stale
 fi
 if [ ! -f "$B/libsymfp_rt.so" ] || [ "$S/rt.cpp" -nt "$B/libsymfp_rt.so" ] || [ "$S/symfp.h" -nt "$B/libsymfp_rt.so" ]; then
   clang++-14 -shared -fPIC -O2 -std=c++17 -I"$S" "$S/rt.cpp" -o "$B/libsymfp_rt.so.tmp" -lpthread
@@ -22,15 +25,15 @@ if [ ! -f "$B/libsymfp_lapack.so" ] || [ "$S/lapack_model.cpp" -nt "$B/libsymfp_
   SYMFP_BUILD="$B" "$S/symfp-clang++" -shared -fPIC -O2 -std=c++17 "$S/lapack_model.cpp" -o "$B/libsymfp_lapack.so.tmp" -L"$B" -lsymfp_rt -Wl,-rpath,"$B"
   mv "$B/libsymfp_lapack.so.tmp" "$B/libsymfp_lapack.so"
 fi
-if [ ! -f "$B/symfp/build.ninja" ]; then
-  mkdir -p "$B/symfp"
-  SYMFP_BUILD="$B" cmake -G Ninja -S "$REPO" -B "$B/symfp" \
+if [ ! -f "$B/$SUB/build.ninja" ]; then
+  mkdir -p "$B/$SUB"
+  SYMFP_BUILD="$B" cmake -G Ninja -S "$REPO" -B "$B/$SUB" \
     -DCMAKE_C_COMPILER="$S/symfp-clang" -DCMAKE_CXX_COMPILER="$S/symfp-clang++" \
     -DCMAKE_BUILD_TYPE=Release -DBUILD_TESTING=OFF -DBUILD_EXAMPLES=OFF -DBUILD_VISUALIZER=OFF \
     -DBUILD_DYNAMIC_LIBRARIES=ON -DBUILD_STATIC_LIBRARIES=OFF -DSIMBODY_BUILD_SHARED_LIBS=ON \
     -DCMAKE_CXX_FLAGS="-Wno-error -w" -DCMAKE_C_FLAGS="-w" \
     -DCMAKE_SHARED_LINKER_FLAGS="-L$B -lsymfp_rt -Wl,-rpath,$B" \
     -DCMAKE_EXE_LINKER_FLAGS="-L$B -lsymfp_rt -Wl,-rpath,$B" \
-    -DCMAKE_INSTALL_PREFIX="$B/symfp-install" > "$B/symfp-cmake.log" 2>&1 || { cat "$B/symfp-cmake.log"; exit 2; }
+    -DCMAKE_INSTALL_PREFIX="$B/symfp-install" > "$B/$SUB-cmake.log" 2>&1 || { cat "$B/$SUB-cmake.log"; exit 2; }
 fi
-SYMFP_BUILD="$B" ninja -C "$B/symfp" -j"${VERIF_JOBS:-16}" SimTKcommon SimTKmath SimTKsimbody > "$B/symfp-ninja.log" 2>&1 || { tail -50 "$B/symfp-ninja.log"; exit 2; }
+SYMFP_BUILD="$B" ninja -C "$B/$SUB" -j"${VERIF_JOBS:-16}" SimTKcommon SimTKmath SimTKsimbody > "$B/$SUB-ninja.log" 2>&1 || { tail -50 "$B/$SUB-ninja.log"; exit 2; }
